@@ -130,7 +130,8 @@ class C15(object):
                          'via_solve_equation', 'inner_loop_tight_tolerance.cases', 'near_cancelling_derived.cases', 'acceptance_window.cases', 'solver_reused_after_search_of_variant.cases',
                          'another_solvers_exclusion_list_extended_in_place.cases',
                          'coarse_per_period_tolerance.cases',
-                         'second_search_after_a_rejected_one.cases')
+                         'second_search_after_a_rejected_one.cases',
+                         'solver_reused_after_search_of_a_block_with_these_names_exogenous.cases')
 
     def n_cases(self, tier):
         return 300 if tier == 'quick' else 20000
@@ -175,7 +176,16 @@ class C15(object):
             dv['rows'] = [[n_, c_, k_ * 0.5 + 3.0] for n_, c_, k_ in dv['rows']]
             dv['near_cancel'] = None
             earlier = render(dv)
+        earlier_exo = False
+        if idx % 12 == 11:
+            # the same solver object first searched ANOTHER block, in which the names that are states / derived variables
+            # here were exogenous constants
+            others = list(d['names']) + ['total', 'neg', 'bal', 'YY', 'CC']
+            earlier = ('q0 = 0.5*LAG_q0 + 0.01*(' + ' + '.join(others) + ')\nLAG_q0 = q0(k-1)\nq0(0) = 1.\nMaxTime = 3\nexogenous\n' +
+                       '\n'.join('%s = [%r]*40' % (n_, float(i_ + 1)) for i_, n_ in enumerate(others)))
+            earlier_exo = True
         return {'kind': 'search', 'dyn': d, 'text': render(d), 'T': T, 'loop_default_tolerance': loop_default,
+                'earlier_names_exogenous': earlier_exo,
                 'earlier_variant': earlier, 'other_solver_excludes': idx % 12 in (3, 9),
                 'retry_after_rejection': idx % 12 in (4, 10),
                 'coarse_step_tolerance': (not d.get('loop')) and rng.random() < 0.3,
@@ -200,6 +210,8 @@ class C15(object):
                     s.SetInitialConditions()
                     s.ParameterInitialSteadyStateMaxTime = 30
                     s.CalculateInitialSteadyState()
+                    if case.get('earlier_names_exogenous'):
+                        rec.count('solver_reused_after_search_of_a_block_with_these_names_exogenous.cases')
                 except Exception:
                     pass
                 rec.count('solver_reused_after_search_of_variant.cases')
